@@ -687,6 +687,58 @@ func VerifH05b() {
 }
 
 // ---------------------------------------------------------------------------
+// H05s — a simple Query is answered in full whatever came just before it
+// (C05): a message of a type the server does not implement (symbolic type byte
+// and body), a Flush, a stray CopyDone / CopyData / CopyFail, or an oversized
+// message — none of them part of an extended-query cycle — and then Query. The
+// Query's cycle is RowDescription, DataRow, CommandComplete and exactly one
+// ReadyForQuery, last; its statement ran once.
+// ---------------------------------------------------------------------------
+func VerifH05s() {
+	var before []byte
+	kind := vChoose(6)
+	switch kind {
+	case 1:
+		typ := nondetByte()
+		// (types the server implements have harnesses of their own)
+		for _, known := range []byte("QPBDECHSXdcfp") {
+			vAssume(typ != known)
+		}
+		before = vMsgBytes(typ, nondetBytes(vChoose(3)))
+		vReach("unimplemented-message-type-before-the-query")
+	case 2:
+		before = vMsgBytes('H', nil)
+	case 3:
+		before = vMsgBytes('c', nil)
+	case 4:
+		before = vMsgBytes('d', nondetBytes(vChoose(3)))
+	case 5:
+		before = vMsgBytes(nondetByte(), make([]byte, 65+vChoose(2)))
+		vReach("oversized-message-before-the-query")
+	}
+	input := vCat(before, vMsgBytes('Q', vCStr([]byte("q"))))
+	w := vNewWorld(input, 64)
+	w.parseMenu = -2
+	w.execMenu = 1
+	if kind != 0 {
+		_, err := w.step()
+		vAssert("connection-stays-up", err == nil)
+	}
+	evBefore := len(w.events)
+	got, err := w.step()
+	vAssert("connection-stays-up", err == nil)
+	vAssert("query-answered-in-full-with-one-ReadyForQuery", got == "TDCZ")
+	execs := 0
+	for _, e := range w.events[evBefore:] {
+		if e.kind == 'x' {
+			execs++
+		}
+	}
+	vAssert("query-statement-ran-once", execs == 1)
+	vAssert("wire-wellformed", vWireOK(w.conn.out))
+}
+
+// ---------------------------------------------------------------------------
 // H06x — the designated replies do not depend on the state of the session's
 // context (C06): the context the embedder's middleware returned has been
 // cancelled (or not — the solver's choice) while the connection stays open,
